@@ -114,6 +114,10 @@ class ScriptedGen:
         self._step("close", None)
 
 
+class ScriptedBaseError(BaseException):
+    """a BaseException that is neither an Exception nor a GeneratorExit (like KeyboardInterrupt / asyncio.CancelledError)"""
+
+
 def drive(gen, script, sent, thrown):
     """-> list of outcomes"""
     outs = []
@@ -137,6 +141,9 @@ def drive(gen, script, sent, thrown):
             elif step.startswith("throw(GeneratorExit"):
                 r = gen.throw(thrown.setdefault(i, HaltLike()))
                 outs.append(("yield", r))
+            elif step.startswith("throw(SomeNonExceptionBaseException"):
+                r = gen.throw(thrown.setdefault(i, ScriptedBaseError(f"thrown{i}")))
+                outs.append(("yield", r))
             elif step.startswith("throw"):
                 r = gen.throw(thrown.setdefault(i, thrown.get("cls", ScriptedError)(f"thrown{i}")))
                 outs.append(("yield", r))
@@ -157,7 +164,7 @@ def same(a, b):
     if a is b:
         return True
     if isinstance(a, BaseException) and isinstance(b, BaseException):
-        return type(a) is type(b) and not isinstance(a, (ScriptedError, HaltLike))
+        return type(a) is type(b) and not isinstance(a, (ScriptedError, HaltLike, ScriptedBaseError))
     try:
         return bool(a == b)
     except Exception:
